@@ -20,11 +20,15 @@ Inductive anomaly :=
 | AActiveOver (opi active inprog : N) (* settled point: more workers counted as working than workers really running a
                                         job -- a job waits at a worker that runs nothing (e.g. a replacement that was
                                         not given its predecessor's queue); judged only where the model's own run is clean *)
-| AQueuedWhileFree (opi depth free : N) (* settled point, factory-queueing router, no discard limit: `depth` accepted jobs wait in
+| AQueuedWhileFree (opi depth free : N) (* settled point, any router, no discard limit: `depth` accepted jobs wait in
                                         the factory queue while `free` workers are idle, alive and not draining -- they have
                                         no fate and nothing is going to give them one; judged only where the model's own run
                                         has no such point at the same op (sticky routing and a rate limit can hold a job back
                                         legitimately) *)
+| AShedKeyRunning (j k opi : N)      (* sticky queuer: job j was load-shed while its key k was being processed -- a job of a key
+                                        in progress is parked at that worker, whose private queue has no limit under a
+                                        factory-queueing router; only a job still in the FACTORY queue can be shed (the queue at its
+                                        limit). Judged only where the model's own run does not shed j in the same situation *)
 (* C14 *)
 | AAffinity (k w1 w2 : N) (opi : N)  (* key k in progress on two workers at once *)
 | AOrder (k j1 j2 : N)               (* key-persistent: j2 dispatched after j1 but started before it *)
@@ -108,6 +112,12 @@ Definition scan_event (r : router) (os : list op) (o : op) (opi : N)
                    | _, _ => false
                    end in
       (filter (fun p => negb (p_j p =? j)) inp, if legit then an else an ++ [ASilentLoss j opi])
+  | EDisc j RLoadshed =>
+      let k := match key_of os j with Some k => k | None => 0 end in
+      (inp, match r with
+            | RSticky => if existsb (fun p => p_k p =? k) inp then an ++ [AShedKeyRunning j k opi] else an
+            | _ => an
+            end)
   | _ => (inp, an)
   end.
 
@@ -123,10 +133,12 @@ Definition scan_query (r : router) (nolimit : bool) (opi : N) (inp : list prog) 
   let cap := q_value (fun e => match e with EQCap n => Some n | _ => None end) evs in
   (match depth, cap with
    | Some d, Some c =>
-       (* with sticky routing a queued job whose key is being processed must wait for that worker, whoever
-          else is idle: lib/c13.py, lib/c14.py apply these to a sticky history only where the model's own
-          run of the scenario is free of them at the same op *)
-       if factory_queueing_r r && nolimit && (0 <? d) && (0 <? c)
+       (* every router: a job in the factory queue next to a free worker (worker-queueing routers use the
+          factory queue only while the pool is empty). With sticky routing a queued job whose key is being
+          processed must wait for that worker, whoever else is idle: lib/c13.py, lib/c14.py apply these --
+          plain queuer routing excepted -- only where the model's own run of the scenario is free of them at
+          the same op *)
+       if nolimit && (0 <? d) && (0 <? c)
        then [AIdleBacklog opi; AQueuedWhileFree opi d c] else []
    | _, _ => [] end)
   ++ (match active with
@@ -227,7 +239,7 @@ Definition jobs_mentioned (os : list op) (flat : list event) : list N :=
 Definition is_c13 (a : anomaly) : bool :=
   match a with
   | ATwoStarts _ | ATwoFates _ | AEndNoStart _ | ARetNoDisc _ | AAccAndRet _ | AUnknownJob _ | ASilentLoss _ _
-  | AActiveOver _ _ _ | AQueuedWhileFree _ _ _ => true
+  | AActiveOver _ _ _ | AQueuedWhileFree _ _ _ | AShedKeyRunning _ _ _ => true
   | _ => false
   end.
 
